@@ -18,7 +18,8 @@ for P in $PROP "$@"; do
   V=$(echo "$OUT" | grep -c "^VIOLATION")
   echo "$NAME: check $P tier=$TIER rc=$RC violations=$V"
   echo "$OUT" | grep -E "^(VIOLATION|  harness=|ENGINE-ERROR|INCONCLUSIVE)" | head -6
-  RES="$RES{\"check\":\"$P\",\"tier\":\"$TIER\",\"rc\":$RC,\"violation_lines\":$V},"
+  LABELS=$(echo "$OUT" | grep -E "^  harness=" | sed -E 's/^  harness=([^ ]+) label=([^ ]+).*/\1:\2/' | sort -u | head -4 | tr '\n' ' ')
+  RES="$RES{\"check\":\"$P\",\"tier\":\"$TIER\",\"rc\":$RC,\"violation_lines\":$V,\"labels\":\"$LABELS\"},"
 done
 python3 - "$DIR/meta.json" "[${RES%,}]" <<'EOF'
 import json, sys
